@@ -1512,6 +1512,65 @@ def opt7(ctx: Ctx) -> None:
 
 
 # ===================================================================== C16
+def _ori4_by_evaluation(mod, bo: ast.FunctionDef):
+    """evaluate better_origin (engine MINI) on every pair of (candidate kind, fallback kind); None when outside the fragment"""
+    from types import SimpleNamespace as NS
+    from ..minieval import Mini, Raised, Unsupported, _Return
+    T = {k: NS(tname=k) for k in ("CoroutineType", "GeneratorType", "AsyncGeneratorType", "FrameType", "FunctionType", "NoneType", "int", "object")}
+    GEN = ("CoroutineType", "GeneratorType", "AsyncGeneratorType")
+
+    def mk(kind: str, weak: bool):
+        return NS(cls=T[kind], weak=weak, label=kind)
+    cands = [mk(k, True) for k in GEN] + [mk("FrameType", False), mk("FunctionType", True), mk("int", False), mk("object", True)]
+    falls = [None] + [mk(k, True) for k in GEN] + [mk("FunctionType", True)]
+
+    def isinst(o_, c_):
+        cs = list(c_) if isinstance(c_, (tuple, list)) else [c_]
+        if not all(isinstance(x, NS) and hasattr(x, "tname") for x in cs):
+            raise Unsupported("isinstance against an unknown class")
+        return o_ is not None and any(o_.cls is x for x in cs)
+
+    def typ(o_):
+        return T["NoneType"] if o_ is None else o_.cls
+
+    def wref(o_, *a_):
+        if o_ is None or not o_.weak:
+            raise Raised("TypeError")
+        return NS(ref_of=o_)
+    params = [a.arg for a in bo.args.args]
+    consts = {}
+    for n_ in mod.tree.body:
+        if isinstance(n_, ast.Assign) and len(n_.targets) == 1 and isinstance(n_.targets[0], ast.Name):
+            consts[n_.targets[0].id] = n_.value
+    n_ok = 0
+    for c in cands:
+        for f in falls:
+            env = {params[0]: c, params[1]: f, "types": NS(**T), "weakref": NS(ref=wref, WeakValueDictionary=None)}
+            m = Mini(env, {}, {"isinstance": isinst, "type": typ})
+            # module-level tuples of types the function refers to
+            try:
+                for nm, val in consts.items():
+                    if any(isinstance(x, ast.Name) and x.id == nm for x in ast.walk(bo)) and isinstance(val, (ast.Tuple, ast.Attribute)):
+                        m.env[nm] = m.expr(val)
+                res = None
+                try:
+                    for st in bo.body:
+                        m.stmt(st)
+                except _Return as r:
+                    res = r.value
+            except (Unsupported, Raised):
+                return None
+            except Exception:
+                return None
+            want_c = c.weak and (c.label in GEN or f is None or f.label not in GEN)
+            want = c if want_c else f
+            if res is not want:
+                got = "candidate" if res is c else "fallback" if res is f else "neither"
+                return n_ok, (c.label + (" (weak-referenceable)" if c.weak else " (not weak-referenceable)"), "None" if f is None else f.label, got, "candidate" if want_c else "fallback")
+            n_ok += 1
+    return n_ok, None
+
+
 def ori_rules(ctx: Ctx) -> None:
     mod = _engine_mod(ctx)
     eo = mod.fn("extract_outermost")
@@ -1703,7 +1762,17 @@ def ori_rules(ctx: Ctx) -> None:
         return e
 
     isis = [c_ for c_ in ast.walk(bo) if isinstance(c_, ast.Call) and norm(c_.func) == "isinstance" and len(c_.args) == 2 and norm(c_.args[0]) in params]
-    if len(params) != 2 or not isis:
+    ev4 = _ori4_by_evaluation(mod, bo) if len(params) == 2 else None
+    if ev4 is not None:
+        n_ok4, bad4_ = ev4
+        if bad4_ is None:
+            ctx.R.ok("ORI-4", f"better_origin evaluated on {n_ok4} (candidate kind, fallback kind) pairs", "the candidate wins iff it is weak-referenceable and (generator-like or the fallback is not)")
+        else:
+            ck, fk, got, want = bad4_
+            ctx.R.fail("ORI-4", mod, bo, f"better_origin(candidate: {ck}, fallback: {fk}) returns the {got}, the {want} is required: the candidate must win iff it can be weakly referenced and it is a "
+                       "coroutine / generator / async generator or the fallback is none of these; otherwise an object reached from inside a generator-like object keeps (or loses) the wrong origin and "
+                       "extract_outermost(origin) recovers a different frame", construct=f"better_origin({ck}, {fk}) -> {got}")
+    elif len(params) != 2 or not isis:
         ctx.R.undecided("ORI-4", "better_origin does not choose by isinstance tests on its two parameters")
     else:
         bad4 = False
